@@ -32,6 +32,8 @@ def run(out, tier):
     quick = tier == "quick"
     r = vlib.require_ok(vlib.tlc(D, "MCFlame", workers=6, timeout=1200, heap="6g"), "Flame: Conservation / Attribution in every reachable state")
     out.add_tlc(r, "MCFlame exhaustive: 2 threads, 2 spans, clock <= 2, <= 3 lines, all four configurations; invariants Conservation, Attribution, NoEmptyEntrySample")
+    # the clock bookkeeping for ANY number of threads and any run length, by the proof system (an inductive invariant)
+    out.extra["tlaps_obligations_proved"] = vlib.tlapm(D, "FlameProof")
     s = vlib.tlc(D, "MCFlameSim", workers=4, simulate=(60 if quick else 1500), depth=60, seed_=vlib.seed() + 77, timeout=900)
     if not s.ok:
         vlib.log(s.out[-3000:])
